@@ -201,7 +201,7 @@ def c10(tier, seed, wd, replay=None):
     # fresh interpreter
     t0 = time.time()
 
-    def fresh(job):
+    def fresh(job, query_first=True):
         name, consts, path, variant, caching, proto, loader, fc, calls, orig = job
         w = build(consts, path, caching)
         PX.decorate(w, variant)
@@ -209,18 +209,20 @@ def c10(tier, seed, wd, replay=None):
             P.run(w, w.project(), {"kind": "C05", "full": False, "nofilter": True})
             mutate_after_warm(w, calls)
         orig2 = PX.projection_with_decor(w)
-        out = PX.roundtrip_fresh(w, proto, loader, fc, calls, wd, f"{os.getpid()}-{abs(hash((name, str(path), variant, caching, proto, loader))) % 10**9}")
+        out = PX.roundtrip_fresh(w, proto, loader, fc, calls, wd, f"{os.getpid()}-{abs(hash((name, str(path), variant, caching, proto, loader))) % 10**9}",
+                                 query_first=query_first)
         out["orig"] = orig2
         return out
 
-    outs = [fresh(j) for j in fresh_jobs]        # sequential: the flag is process-global
+    outs = [fresh(j, query_first=bool(ji % 2)) for ji, j in enumerate(fresh_jobs)]        # sequential: the flag is process-global
     batches = {}
     for ji, (job, out) in enumerate(zip(fresh_jobs, outs)):
         name, consts, path, variant, caching, proto, loader, fc, calls, orig = job
         cls = f"roundtrip:fresh-interpreter,proto{proto},{loader},dumpcache{int(caching)},loadcache{int(fc)}"
         run.count_class(cls)
         rp = {"kind": "pickle-fresh", "config": name, "consts": {k: (sorted(x) if isinstance(x, set) else x) for k, x in consts.items()},
-              "path": path, "variant": variant, "caching": caching, "protocol": proto, "loader": loader, "fresh_caching": fc, "calls": calls}
+              "path": path, "variant": variant, "caching": caching, "protocol": proto, "loader": loader, "fresh_caching": fc, "calls": calls,
+              "query_first": bool(ji % 2)}
         if out.get("err"):
             run.violation(f"{cls}|{out['err']}", f"un-pickling / using the copy in a fresh interpreter raised {out['err']}: {out.get('trace', '')[-200:]}", rp)
             continue
@@ -230,7 +232,8 @@ def c10(tier, seed, wd, replay=None):
         for r in out["records"]:
             bt["cont"].append(dict(r, id=len(bt["cont"]) + 1, job=ji))
         S0 = {k: v for k, v in out["post"].items() if k != "decor"}
-        bt["q"].append({"id": len(bt["q"]) + 1, "S": S0, "probes": out["probes_before"], "job": ji})
+        if out["probes_before"]:
+            bt["q"].append({"id": len(bt["q"]) + 1, "S": S0, "probes": out["probes_before"], "job": ji})
         bt["q"].append({"id": len(bt["q"]) + 1, "S": out["state_after"], "probes": out["probes_after"], "job": ji})
         bt["owner"][ji] = (cls, rp)
     for name, bt in batches.items():
@@ -317,7 +320,8 @@ def replay_file(path, wd):
         if rp["caching"]:
             P.run(w, w.project(), {"kind": "C05", "full": False, "nofilter": True})
         orig = PX.projection_with_decor(w)
-        out = PX.roundtrip_fresh(w, rp["protocol"], rp["loader"], rp["fresh_caching"], rp["calls"], wd, "replay")
+        out = PX.roundtrip_fresh(w, rp["protocol"], rp["loader"], rp["fresh_caching"], rp["calls"], wd, "replay",
+                                 query_first=rp.get("query_first", True))
         print(json.dumps({k: out.get(k) for k in ("err", "trace")}))
         bad = bool(out.get("err"))
         if not bad:
